@@ -549,3 +549,65 @@ pub fn sandwich_histories(prop: &str, cols: usize, rows: usize) -> Vec<History> 
     }
     out
 }
+
+// ------------------------------------------------------------------------------------------ GX
+// Extreme dimensions for the differential monitor: one dimension at or beyond 2^16, the other tiny
+// (such a screen has ~1e5 cells).  Parameters stay within the promised 0..=65535, so the far part of
+// the screen is reached by repeating relative moves.
+
+pub const GX_TALL: &[(usize, usize)] = &[(1, 65536), (2, 65537), (2, 65600), (1, 70_000), (3, 131_072), (2, 65535)];
+pub const GX_WIDE: &[(usize, usize)] = &[(65536, 1), (65537, 2), (65600, 2), (70_000, 1), (131_073, 2), (65535, 2)];
+
+fn numbers_in_range(s: &str) -> bool {
+    let mut cur: u64 = 0;
+    for ch in s.chars() {
+        if let Some(d) = ch.to_digit(10) {
+            cur = (cur * 10 + d as u64).min(1 << 40);
+            if cur > 65535 {
+                return false;
+            }
+        } else {
+            cur = 0;
+        }
+    }
+    true
+}
+
+pub fn gx_history(prop: &str, r: &mut crate::rng::Rng, size: (usize, usize)) -> History {
+    let (c, rw) = size;
+    let mut h = History::new(c, rw, if r.chance(1, 3) { Some(3) } else { None });
+    let margins = ["", "", "\x1b[r", "\x1b[5r", "\x1b[5;r", "\x1b[;65535r", "\x1b[65000;65535r", "\x1b[2;65535r", "\x1b[2;0r", "\x1b[3;9r"];
+    let places = [
+        "",
+        "\x1b[65535;65535H",
+        "\x1b[65535;65535H\x1b[65535B\x1b[65535C",
+        "\x1b[65535B\x1b[65535B\x1b[65535B",
+        "\x1b[65535C\x1b[65535C\x1b[65535C",
+        "\x1b[32768;2H",
+        "\x1b[1;32768H",
+        "\x1b[65535;65535H\x1b[4B\x1b[4C",
+        "\x1b[65535;65535H\x1b[65535e\x1b[65535a",
+    ];
+    let general = [
+        "ab", "abc", "\n", "\r", "\x1bM", "\x1b[A", "\x1b[65535B", "\x1b[65535C", "\x1b[65535A", "\x1b[65535D", "\x1b[65535;65535H", "\x1b[H", "\x1b[2J", "\x1b[K", "\x1b[1K",
+        "\x1b[J", "\x1b[1J", "\x1b[65535X", "\x1b[65535@", "\x1b[65535P", "\x1b[65535L", "\x1b[65535M", "\x1b[65535S", "\x1b[65535T", "\x1b[S", "\x1b[T", "\x1b[L", "\x1b[M", "\t", "\x1b[65535I",
+        "\x1b[Z", "\x1bH", "\x1b[g", "\x1b7", "\x1b8", "\x1b[?6h", "\x1b[?6l", "\x1b[?7l", "\x1b[?7h", "\x1b[41m", "\x1b[m", "\x1b[65535b", "\x1b[r", "\x1b[5r", "\x1b[;65535r",
+        "\x1b[65000;65535r", "\x1b[2;r", "\x1b[65535d", "\x1b[65535G", "\x1b[65535e", "\x1b[65535a", "\x1b#8", "\x1bD", "\x1bE", "\x1b[65535E", "\x1b[65535F", "\x1b[?1047h", "\x1b[?1049l",
+    ];
+    let own: Vec<String> = g3_commands(prop, c, rw).into_iter().filter(|s| numbers_in_range(s)).collect();
+    let mut s = String::new();
+    s.push_str(*r.pick(&margins));
+    if r.chance(1, 3) {
+        s.push_str("\x1b[?6h");
+    }
+    if r.chance(1, 2) {
+        s.push_str("\x1b[44m");
+    }
+    s.push_str(*r.pick(&places));
+    h.calls.push(Call::FeedStr(s));
+    for _ in 0..r.range(2, 6) {
+        let t = if !own.is_empty() && r.chance(1, 2) { r.pick(&own).clone() } else { r.pick(&general).to_string() };
+        h.calls.push(Call::FeedStr(t));
+    }
+    h
+}
